@@ -72,9 +72,11 @@ FORMS = (
     "macro", "macroarg", "macrotail",
 )  # fmt: skip
 MACRO_FORMS = ("macro", "macroarg", "macrotail")
-ALL_FORMS = FORMS + ("envplain", "envbrace", "envat", "envdq", "envdqmid", "envdq2", "envsq", "envf", "envgluesuf", "envgluepre")
+ALL_FORMS = FORMS + ("envplain", "envbrace", "envat", "envdq", "envdqmid", "envdq2", "envsq", "envf", "envgluesuf", "envgluepre", "litraw", "litat")
 # sub-forms that are one syntactic form of the statement share the <form> part of the key
 FAMILY = {"envdqmid": "envdq", "envdq2": "envdq", "envgluesuf": "envglue", "envgluepre": "envglue", "gluepre": "glue", "gluesuf": "glue", "glueboth": "glue", "gluelist": "glue", "macroarg": "macro", "macrotail": "macro", "tsq": "triple", "tdq": "triple", "ffield": "f", "fval": "f"}
+# second members of a form family: in the quick tier only for length<=1 values and the probes
+QUICK_TINY_ONLY = ("tdq", "atgen", "glueboth", "macrotail")
 POSITIONS = ("mid", "first", "last", "redir", "capt")
 # delivery paths.  direct: the command word IS the recorder (threaded callable alias, unthreaded
 # callable alias, real child found on $PATH).  aliased: the command word is a list alias / a string
@@ -104,7 +106,11 @@ ENV_FORMS = {
     "envf": ("f'$Q'", "", ""),
     "envgluesuf": ("$Q/s", "", "/s"),
     "envgluepre": ("p/$Q", "p/", ""),
+    # the same texts WRITTEN in the two verbatim forms (no substitution at all is documented here)
+    "litraw": ('r"%s"', "", ""),
+    "litat": ('@("%s")', "", ""),
 }
+VERBATIM_ENV_FORMS = ("litraw", "litat")
 
 
 def char_class(ch):
@@ -275,7 +281,10 @@ def _balanced(v):
 def render_line(form, pos, v, cmd):
     """(source line, python-self-check literal or None) or None if the combination is skipped."""
     if form in ENV_FORMS:
-        return f"{cmd} L {ENV_FORMS[form][0]} R\n" if pos == "mid" and v else None
+        if pos != "mid" or not v:
+            return None
+        arg = ENV_FORMS[form][0]
+        return f"{cmd} L {arg % ''.join(v) if '%s' in arg else arg} R\n"
     if form in MACRO_FORMS:
         if "\n" in v or not v.strip(" \t"):
             return None  # a macro is one line; the empty macro is not specified
@@ -312,7 +321,7 @@ def render_line(form, pos, v, cmd):
 def self_check(form, v):
     """The generated literal must denote `v` in plain Python (the quoting function is part of the
     harness, so a mistake there is a tool error, never a finding)."""
-    if form == "plain" or form.startswith(("at", "glue", "macro", "env")):
+    if form == "plain" or form in ENV_FORMS or form.startswith(("at", "glue", "macro")):
         return
     a = render_arg(form, v)
     if a is None:
@@ -462,6 +471,8 @@ def expected_argv(form, pos, v, expand_env, env, home):
         # (`~` leading the RESULT may or may not be expanded: the order of the two documented
         # expansions is not documented)
         base = ENV_FORMS[form][1] + "".join(v) + ENV_FORMS[form][2]
+        if form in VERBATIM_ENV_FORMS:
+            return [{"L"}, {base}, {"R"}]
         return [{"L"}, {base} | ref_tilde(base, home), {"R"}]
     if form in MACRO_FORMS:
         t = v.strip(" \t")
@@ -573,12 +584,14 @@ def _norm(args):
 def run_source(src, path, expand_env, xval=None, qval=None, alarm_s=20.0):
     """Execute one source line on one delivery path; returns the argv list or a failure tuple."""
     xsh = _W["xsh"]
-    xsh.env["EXPAND_ENV_VARS"] = expand_env
+    if xsh.env.get("EXPAND_ENV_VARS") is not expand_env:  # (an unconditional write would invalidate
+        xsh.env["EXPAND_ENV_VARS"] = expand_env  # the detyped-environment cache before every child)
     xsh.ctx.pop("x", None)
     if xval is not None:
         xsh.ctx["x"] = xval
     if qval is not None:
-        xsh.env["Q"] = qval
+        if xsh.env.get("Q") != qval:
+            xsh.env["Q"] = qval
     elif "Q" in xsh.env:
         del xsh.env["Q"]
     del _REC[:]
@@ -650,14 +663,20 @@ def _plan_for(v, thorough):
     if isinstance(v, tuple):  # part B: value of a variable
         # (unthreaded alias first: a hang is recorded on the first path only, keep that the same one)
         return [(form, "mid", True, ("u", "lu", "t", "c", "su", "lc") if len(v) == 1 else ("u", "lu")) for form in ENV_FORMS]
-    tiny = len(v) <= 1 or v in _PROBE_SET
-    short = tiny or len(v) <= 2
+    # the probes proper get the full treatment of the length<=1 values; the other members of their
+    # deletion-closure exist for the attribution (minimal failing value) and count as short values
+    tiny = len(v) <= 1 or v in PROBES
+    short = tiny or len(v) <= 2 or v in _PROBE_SET
     expandable = "$" in v or "~" in v
     plan = []
     for form in FORMS:
+        if not thorough and not (tiny or v in _PROBE_SET) and form in QUICK_TINY_ONLY:
+            continue  # (kept for the whole closure of the probes so that their failures can be reduced)
         # base sweep: every value, middle position, default configuration
-        if tiny or (thorough and short):
+        if thorough and short:
             paths = PATHS
+        elif tiny:
+            paths = PATHS if len(v) <= 1 else ("t", "u", "c", "lu", "su")
         else:
             paths = ("u", "lu") if expandable else ("u",)
         plan.append((form, "mid", True, paths))
@@ -666,12 +685,12 @@ def _plan_for(v, thorough):
             if tiny and thorough:
                 plan.append((form, "mid", False, DIRECT + ("lu",)))
             elif tiny:
-                plan.append((form, "mid", False, ("u", "lu")))
+                plan.append((form, "mid", False, ("u", "lu") if expandable else ("u",)))
             elif (thorough and short) or expandable:
                 plan.append((form, "mid", False, ("u",)))
         # positions (redirect / capture change the plumbing around the command, so the delivery
         # path matters there; first / last only move the argument)
-        if tiny or (thorough and short):
+        if tiny or v in _PROBE_SET or (thorough and short):
             for pos in POSITIONS[1:]:
                 if thorough:
                     paths = DIRECT if tiny else ("u",)
@@ -824,8 +843,8 @@ def run(ctx):
     if ctx.thorough:
         plan_txt = "length<=2 and probes: middle position on all six delivery paths, $EXPAND_ENV_VARS=False and the 4 other positions on the unthreaded alias (length<=1 and the probes: on the three direct paths, $EXPAND_ENV_VARS=False also through the list alias); length 3: middle position on the unthreaded alias, plus through the list alias and with $EXPAND_ENV_VARS=False when the value contains $ or ~"
     else:
-        plan_txt = "middle position on the unthreaded alias for every value; length<=1 and the probes on all six delivery paths, with $EXPAND_ENV_VARS=False directly and through the list alias, and in the 4 other positions (redirect/capture positions on the three direct paths for length<=1); length-2 values containing $ or ~ also through the list alias and with $EXPAND_ENV_VARS=False"
-    plan_txt += f"; part B: variable Q set to every non-empty sequence of <= {maxlen} of the tokens {list(VTOKENS)} ($W='{ENV_W}', files matching the globs present) and used as {[a for a, _, _ in ENV_FORMS.values()]} on the unthreaded alias directly and through the list alias (single tokens: all six paths), expected = the value substituted verbatim exactly once, 3 s alarm per execution"
+        plan_txt = f"middle position on the unthreaded alias for every value; length<=1 and the probes on all six delivery paths (probes longer than 1: five, without list-alias->child), with $EXPAND_ENV_VARS=False (also through the list alias when the value contains $ or ~), and in the 4 other positions (redirect/capture positions on the three direct paths for length<=1); length-2 values containing $ or ~ also through the list alias and with $EXPAND_ENV_VARS=False; the forms {list(QUICK_TINY_ONLY)} only for length<=1 and the probes' closure"
+    plan_txt += f"; part B: variable Q set to every non-empty sequence of <= {maxlen} of the tokens {list(VTOKENS)} ($W='{ENV_W}', files matching the globs present) and used as {[a for a, _, _ in ENV_FORMS.values()]} (%s = the same text written literally, expected verbatim) on the unthreaded alias directly and through the list alias (single tokens: all six paths), expected = the value substituted verbatim exactly once, 3 s alarm per execution"
     ctx.coverage.update(
         evaluations=evals,
         distinct_nontrivial=nontrivial,
